@@ -2,12 +2,12 @@
 # mkseed.sh <PID> <suffix>  — creates /tmp/seed-<id> worktree of /repo HEAD and the prompt /tmp/seed-<id>.prompt.txt
 # (the prompt holds only the property text, the seeding rules and one-line summaries of ideas already taken).
 set -e
-PID=$1; SUF=$2; id=$(echo "$PID" | tr A-Z a-z)$SUF
+PID=$1; SUF=$2; FLAVOR=${3:-fault}; id=$(echo "$PID" | tr A-Z a-z)$SUF
 WT=/tmp/seed-$id
 git -C /repo worktree add -q --detach "$WT" HEAD
-python3 - "$PID" "$id" "$WT" <<'PY'
+python3 - "$PID" "$id" "$WT" "$FLAVOR" <<'PY'
 import json,sys,glob,os
-pid,id_,wt=sys.argv[1:4]
+pid,id_,wt,flavor=sys.argv[1:5]
 prop=None
 for l in open('/verif/properties.jsonl'):
     p=json.loads(l)
@@ -21,7 +21,10 @@ t=open('/verif/tools/seed-prompt.template.txt').read()
 t=t.replace('@WT@',wt).replace('@ID@',id_).replace('@PID@',pid).replace('@PROP@',text)
 if taken:
     t+='\n\nIdeas already used by earlier contributors for this property (pick a DIFFERENT mechanism and a different code site):\n'+'\n'.join(taken)+'\n'
-t+='\nPrefer, this time, a defect whose trigger is a fault, crash point, interleaving, retry path, or a rarely used option/configuration rather than a plain odd input.\n'
+if flavor=='fault':
+    t+='\nPrefer, this time, a defect whose trigger is a fault, crash point, interleaving, retry path, or a rarely used option/configuration rather than a plain odd input.\n'
+else:
+    t+='\nThis time make it a MUTATION-STYLE change inside one of the functions named under "mechanism"/"files" in the anchors: a single small edit of the kind mutation testing makes or a hurried contributor slips in - a comparison operator or boundary (< vs <=, off by one), a negated or dropped condition, && vs ||, a swapped argument or variable of the same type, a missing break/continue/return, a wrong default, a check moved after the action it guards. It must still need a specific (not exotic) input or sequence to show, keep the existing tests green, and stay within the stated property. Also export TMPDIR=/tmp/seedhome-'+id_+'/tmp (create it) when running the test suite.\n'
 open(f'/tmp/seed-{id_}.prompt.txt','w').write(t)
 print(f'/tmp/seed-{id_}.prompt.txt')
 PY
